@@ -50,10 +50,10 @@ def build_harness(profile="dev"):
     return exe
 
 
-def drive(family, outdir, tier, seed, extra=(), profile="dev", timeout=900):
+def drive(family, outdir, tier, seed, extra=(), profile="dev", timeout=900, verb="drive"):
     exe = build_harness(profile)
     os.makedirs(outdir, exist_ok=True)
-    cmd = [exe, "drive", family, "--out", outdir, "--tier", tier, "--seed", str(seed)] + list(extra)
+    cmd = [exe, verb, family, "--out", outdir, "--tier", tier, "--seed", str(seed)] + list(extra)
     t0 = time.time()
     try:
         p = subprocess.run(cmd, stdout=subprocess.PIPE, stderr=subprocess.PIPE, text=True, timeout=timeout)
@@ -223,6 +223,33 @@ class Run:
         if not r.ok:
             self.tool_errors.append("design-level model %s (%s) failed: %s" % (module, cfg, r.error[:1500]))
         return r
+
+    # --- U2: let TLC enumerate the behaviours of a generation model; one JSON line per behaviour
+    def generate(self, module, cfg, outpath, timeout=600, heap="4g", simulate=None, extra=(), note=""):
+        r = run_tlc(module, cfg, workers=1, timeout=timeout, heap=heap, simulate=simulate, extra=extra,
+                    metadir=os.path.join(self.workdir, "md-gen-" + module))
+        self.cmds.append(r.cmd)
+        n = 0
+        with open(outpath, "w") as f:
+            for line in r.out.splitlines():
+                if line.startswith('"{'):
+                    try:
+                        f.write(json.loads(line) + "\n")
+                        n += 1
+                    except ValueError:
+                        pass
+        self.states += r.distinct
+        self.transitions += r.generated
+        self.u1.append({"model": module, "cfg": cfg, "distinct_states": r.distinct, "states_generated": r.generated,
+                        "ok": r.ok, "wall_s": round(r.wall, 1), "behaviours_emitted": n,
+                        "note": note or "generation model: behaviours replayed on the real crate"})
+        log("[gen] %s/%s: %s, %d behaviours, %d distinct states, %.1fs" %
+            (module, cfg, "ok" if r.ok else "FAILED", n, r.distinct, r.wall))
+        if not r.ok or n == 0:
+            self.tool_errors.append("generation model %s (%s) failed or emitted nothing: %s" % (module, cfg, r.error[:1500]))
+        self.extra.setdefault("behaviours_generated_by_tlc", 0)
+        self.extra["behaviours_generated_by_tlc"] += n
+        return n
 
     # --- U3: validate a trace recorded from the real crate
     def validate(self, stage, trace_path, module, cfg, prefixes, workers=8, timeout=900, heap="6g", env=None,
